@@ -56,6 +56,9 @@ def schedules(situations, full):
                 if where == "atId":
                     sc = dict(base, ackAt=13, infoAt=25, lat=[4, 4, 2], locale="en_US")
                     add("tick/LoginAck/p1/atId", sc, seg={"frame": "LoginAck", "cut": 1, "pause": 7})
+                    # ... or is completed only just before the NEXT deadline (31 s), with routing that outlasts several more
+                    sc = dict(base, ackAt=13, infoAt=33, lat=[20, 4, 2], locale="en_US")
+                    add("tick/LoginAck/p1/atId/late", sc, seg={"frame": "LoginAck", "cut": 1, "pause": 18})
         if by == "outer":
             # routing: discovery completes at 21 while a frame that started at 19 is completed at 24
             frames = [("Echo", 1)] if prefix == 1 else []
@@ -82,7 +85,7 @@ def schedules(situations, full):
                         if "plugin" in sc:
                             sc["plugin"]["at"] = 15
                         for lat in ([16, 4, 2], [4, 12, 2], [4, 4, 8]):
-                            for k in ([1, 3] if not full else [1, 2, 3, 5, 9]):
+                            for k in ([0, 1, 3] if not full else [0, 1, 2, 3, 5, 9]):
                                 add("outer/%s/p%d/%s/writing" % (frame, pf, where), dict(sc, lat=lat), wstall={"at": 15, "k": k, "release": 19}, **kw)
                     else:
                         add("outer/%s/p%d/%s" % (frame, pf, where), sc, **kw)
@@ -107,7 +110,7 @@ def write_stall_schedules(full):
     With a client that echoes promptly and with one that never does (the half-written Keep Alive is outstanding all the same)."""
     out = []
     for lat in ([16, 4, 2], [4, 12, 2], [4, 4, 8], [16, 1, 1]):
-        for k in ([1, 4] if not full else [1, 2, 4, 5, 9]):
+        for k in ([0, 1, 4] if not full else [0, 1, 2, 4, 5, 9]):
             for release in (19, 30):
                 for policy in ("prompt", "never"):
                     out.append({"tag": "stall/lat=%s/k=%d/release=%d/%s" % ("-".join(map(str, lat)), k, release, policy),
@@ -115,14 +118,14 @@ def write_stall_schedules(full):
                                 "wstall": {"at": 15, "k": k, "release": release}})
     # routing outlasts the next deadline: the half-written Keep Alive is outstanding, a client that never echoes it is timed out at 32 s
     for lat in ([16, 40, 2], [4, 12, 40]):
-        for k in (1, 4):
+        for k in (0, 1, 4):
             out.append({"tag": "stall/lat=%s/k=%d/release=19/never-outlasting" % ("-".join(map(str, lat)), k),
                         "sched": {"auth": 0, "policy": "never", "ackAt": 1, "infoAt": 1, "lat": lat, "locale": "en_US"},
                         "wstall": {"at": 15, "k": k, "release": 19}})
     # ... and a client that WOULD echo promptly: it can only do so if the half-written Keep Alive is completed as soon as the transport
     # reopens (19 s), not when the next packet happens to be queued (the stage that follows outlasts the next deadline)
     for lat in ([16, 40, 2], [4, 12, 40], [16, 1, 40]):
-        for k in (1, 4):
+        for k in (0, 1, 4):
             out.append({"tag": "stall/lat=%s/k=%d/release=19/prompt-outlasting" % ("-".join(map(str, lat)), k),
                         "sched": {"auth": 0, "policy": "prompt", "ackAt": 1, "infoAt": 1, "lat": lat, "locale": "en_US"},
                         "wstall": {"at": 15, "k": k, "release": 19}})
